@@ -111,8 +111,17 @@ def run_verus(pid, unit, tier, seed, keep=False):
             msgs = [f["message"] for f in fails if f["kind"] in ("compile", "other")][:3]
             out["undecided"].append({"what": "verifier could not process the annotated crate (unsupported construct / type error): %s" % "; ".join(msgs or [run["stderr"][-300:]])})
             return out
+        # A contract that could not be attached leaves its function without specification: callers then fail for that
+        # reason alone. Such failures are not evidence against the code -> undecided, never an alarm.
+        lost_any = meta.get("lost", [])
         failed_ids = set()
         for f in fails:
+            if lost_any and f["kind"] not in ("rlimit", "compile"):
+                in_scope0 = (f["fn"] in scope_fns) or "verif_specs" in (f["file"] or "")
+                if in_scope0:
+                    out["undecided"].append({"what": "obligation %s failed, but the contract of %s could not be attached to the current source in this run (%s): the failure may stem from the missing contract" % (
+                        f["obligation"], ", ".join(sorted(set(l["fn"] for l in lost_any))), "; ".join(sorted(set(l["why"][:120] for l in lost_any))[:2]))})
+                continue
             in_scope = (f["fn"] in scope_fns) or "verif_specs" in (f["file"] or "")
             if not in_scope:
                 continue
